@@ -157,9 +157,10 @@ func LoadNormalised(opts LoadOpts, dry func(*Prog)) (*Prog, error) {
 		dry(p)
 	}
 	info := &NormInfo{}
+	written := p
 	const maxRounds = 4
 	canonTry := 0 // 0: both rewrites, 1: library forms only, 2: methods only
-	canonAgain := false
+	canonAgain := 0
 	// round 0 and the last round rewrite library forms (canon.go); the rounds between expand helpers
 	for round := -2; round <= maxRounds+2; round++ {
 		var res roundPlan
@@ -271,12 +272,12 @@ func LoadNormalised(opts LoadOpts, dry func(*Prog)) (*Prog, error) {
 			info.Removed = append(info.Removed, res.removed...)
 		}
 		info.Expanded = append(info.Expanded, res.expanded...)
-		if round == 0 && !canonAgain {
+		if round == 0 && canonAgain < 3 {
 			// a rename made in this round can enable another rewrite of the same round (a function that got an anchored
 			// method's name back gets its receiver back next): one more pass
 			for _, e := range res.expanded {
 				if strings.HasSuffix(e, "(again)") {
-					canonAgain = true
+					canonAgain++
 					round--
 					break
 				}
@@ -288,6 +289,9 @@ func LoadNormalised(opts LoadOpts, dry func(*Prog)) (*Prog, error) {
 		p = np
 	}
 	p.Norm = info
+	if p != written {
+		p.Written = written
+	}
 	if d := os.Getenv("MLB_DUMP_NORM"); d != "" {
 		for name, b := range p.overlay {
 			if ob, orig := opts.Overlay[name]; orig && string(ob) == string(b) {
@@ -879,6 +883,9 @@ func planRound(p *Prog, round int) roundPlan {
 	}
 	// helpers whose every reference was expanded are removed (optional edit)
 	for fo, n := range done {
+		if dbg := os.Getenv("MLB_DEBUG_EXPAND"); dbg != "" && strings.HasSuffix(ShortName(fo), dbg) {
+			fmt.Fprintln(os.Stderr, "removal", ShortName(fo), "done", n, "uses", uses[fo], "callUses", callUses[fo])
+		}
 		if n == uses[fo] && n == callUses[fo] {
 			cf := p.FnOf(fo)
 			if cf == nil || cf.Decl.Recv != nil && in.methodNeeded(cf) {
@@ -1082,7 +1089,36 @@ func (in *inliner) keepImportsUsed(plan *roundPlan) {
 			cancel := false
 			for pn := range inside {
 				if outside[pn] == 0 {
-					cancel = true
+					// the helper's text was copied to its callers in this round: the import is still used there
+					copied := false
+					for _, e := range fe.edits {
+						if !e.removal && strings.Contains(e.text, pn.Name()+".") {
+							copied = true
+						}
+					}
+					if copied {
+						continue
+					}
+					// the import goes with its last user
+					var spec *ast.ImportSpec
+					for _, is := range file.Imports {
+						if o := pkg.TypesInfo.Implicits[is]; o == types.Object(pn) {
+							spec = is
+						}
+						if is.Name != nil && pkg.TypesInfo.Defs[is.Name] == types.Object(pn) {
+							spec = is
+						}
+					}
+					gd, _ := in.p.parents[spec].(*ast.GenDecl)
+					if spec == nil || gd == nil {
+						cancel = true
+						continue
+					}
+					if gd.Lparen.IsValid() {
+						fe.edits = append(fe.edits, textEdit{start: in.off(spec.Pos()), end: in.off(spec.End()), text: "", removal: true})
+					} else {
+						fe.edits = append(fe.edits, textEdit{start: in.off(gd.Pos()), end: in.off(gd.End()), text: "", removal: true})
+					}
 				}
 			}
 			if cancel {
